@@ -57,8 +57,10 @@ _OPS_TRUSTED = [
 
 PROPS['C13'] = {
     # eval_node is part of the cone: it decides which operator function a weak-until node is evaluated by and with which arguments
-    'units': ['ops', 'eval', 'canon'],
-    'functions': {'canon': [], 'ops': ['eval_ew', 'eval_aw', 'eval_au', 'eval_eu_saturated', 'eval_neg', 'eval_ax', 'eval_ex', 'eval_eg'], 'eval': ['eval_node']},
+    # entry points in the cone (lesson of C12m): EW depends on the self-loop set they hand to eval_node
+    'units': ['ops', 'eval', 'api', 'front', 'lex', 'tree', 'mark', 'canon'],
+    'functions': {'canon': [], 'mark': [], 'front': [], 'lex': [], 'tree': [], 'api': None,
+                  'ops': ['eval_ew', 'eval_aw', 'eval_au', 'eval_eu_saturated', 'eval_neg', 'eval_ax', 'eval_ex', 'eval_eg'], 'eval': ['eval_node']},
     'level_text': ('Proof that eval_ew / eval_aw return exactly E[phi U psi] or EG phi, resp. not E[not psi U (not phi and not psi)] '
                    '(the equations of the statement, over least/greatest fixed points of an arbitrary coloured transition system), for every '
                    'graph, every argument set and every number of loop iterations; psi-states satisfy both (lemma).'),
@@ -154,8 +156,10 @@ UNIT_TIMEOUT['eval'] = 1200  # the unchanged tree needs about 60 s; seeded chang
 
 PROPS['C11'] = {
     # eval_node is part of the cone: it decides which operator function a temporal node is evaluated by and with which arguments
-    'units': ['ops', 'eval', 'canon'],
-    'functions': {'canon': [], 'ops': ['eval_neg', 'eval_ex', 'eval_ax', 'eval_eg', 'eval_af', 'eval_eu', 'eval_ef', 'eval_eu_saturated', 'eval_ef_saturated', 'eval_ag', 'eval_au', 'eval_ew', 'eval_aw'], 'eval': ['eval_node']},
+    # the entry points are in the cone as well (lesson of C12m): "EX / AX treat steady states as self-loops" depends on the set they hand to eval_node
+    'units': ['ops', 'eval', 'api', 'front', 'lex', 'tree', 'mark', 'canon'],
+    'functions': {'canon': [], 'mark': [], 'front': [], 'lex': [], 'tree': [], 'api': None,
+                  'ops': ['eval_neg', 'eval_ex', 'eval_ax', 'eval_eg', 'eval_af', 'eval_eu', 'eval_ef', 'eval_eu_saturated', 'eval_ef_saturated', 'eval_ag', 'eval_au', 'eval_ew', 'eval_aw'], 'eval': ['eval_node']},
     'level_text': ('Proof, on every graph and for arbitrary argument sets, that each temporal operator function returns exactly its fixed-point '
                    'specification (EU/EF least, EG greatest, AU least fixed point; AX/AF/AG by duality; EX with explicit self-loops), plus proved '
                    'lemmas for the laws named in the statement: unfolding of EF / EG / EU / AU, monotonicity of EX / EU / EG / AU / AX in every '
